@@ -318,7 +318,7 @@ pub fn run(e: &'static Engine) {
         }
     }
     e.par(jobs);
-    let total: u32 = e.tier.pick(192, 4800);
+    let total: u32 = e.tier.pick(640, 9600);
     let shards = e.tier.pick(32u32, 96);
     let mut jobs: Vec<Job> = Vec::new();
     for _ in 0..shards {
